@@ -132,3 +132,25 @@ Definition cert_object_name (path : str) : pres str :=
   let after_last_slash := S (match rfind_byte 47 path with Some i => i | None => O end) in
   if negb (ends_with [46; 99; 101; 114] path) || Nat.ltb (length path) (after_last_slash + 5) then PErr
   else slice_from path after_last_slash.
+
+(** *** URIs built from a handle: Config::rfc8181_uri (config.rs:1005-1013),
+    CaManager::service_uri_for_ca (server/ca/manager.rs:900-909):
+      uri::Https::from_string(format!("{}rfc8181/{}/", service_uri, publisher))        -> Result
+      uri::Https::from_string(format!("{base_uri}rfc6492/{ca_handle}")).map_err(..)?    -> KrillResult
+    rpki uri::Https::from_bytes (uri.rs:544-554) accepts a string iff every byte passes
+    is_u8_uri_ascii (uri.rs:919-924) and it starts with an https scheme.
+    Repaired tree (commit 27402048, findings F16c/F16d): the error is returned. The originally
+    pinned tree called [.unwrap()] on the result: [rfc8181_uri_pinned], [service_uri_for_ca_pinned]. *)
+Definition uri_char (b : N) : bool :=
+  (b =? 33) || ((36 <=? b) && (b <=? 59)) || (b =? 61) || ((65 <=? b) && (b <=? 90)) || (b =? 95)
+  || ((97 <=? b) && (b <=? 122)) || (b =? 126).
+Definition HTTPS_SCHEME : str := [104; 116; 116; 112; 115; 58; 47; 47].   (* "https://" *)
+Definition https_from_string (s : str) : option str :=
+  if forallb uri_char s && starts_with HTTPS_SCHEME (map (fun b => if (65 <=? b) && (b <=? 90) then b + 32 else b) s)
+  then Some s else None.
+Definition RFC8181_SEG : str := [114; 102; 99; 56; 49; 56; 49; 47].       (* "rfc8181/" *)
+Definition RFC6492_SEG : str := [114; 102; 99; 54; 52; 57; 50; 47].       (* "rfc6492/" *)
+Definition rfc8181_uri (base h : str) : pres str := of_opt (https_from_string (base ++ RFC8181_SEG ++ h ++ [47])).
+Definition service_uri_for_ca (base h : str) : pres str := of_opt (https_from_string (base ++ RFC6492_SEG ++ h)).
+Definition rfc8181_uri_pinned (base h : str) : pres str := unwrap_opt (https_from_string (base ++ RFC8181_SEG ++ h ++ [47])).
+Definition service_uri_for_ca_pinned (base h : str) : pres str := unwrap_opt (https_from_string (base ++ RFC6492_SEG ++ h)).
